@@ -841,7 +841,53 @@ def eval_saslprep(text):
 # ===========================================================================
 # case dispatch (shared by the enumeration and by replay)
 # ===========================================================================
+def eval_hmac_after_ctor(name, variant, order):
+    """digest resolution is memoised by name: after the application has looked up a constructor of ITS OWN that
+    reports a standard name (a truncated / personalised blake2, a hashlib.new wrapper), the NAME must still compute
+    the standard function -- in either order of the two lookups"""
+    import functools
+    import hashlib
+
+    from passlib.crypto import digest as G
+
+    out = []
+    if variant == "truncated":
+        ctor = functools.partial(getattr(hashlib, name), digest_size=16) if name.startswith("blake2") else None
+    elif variant == "personalised":
+        ctor = functools.partial(getattr(hashlib, name), person=b"c11") if name.startswith("blake2") else None
+    else:
+        ctor = functools.partial(hashlib.new, name)
+    if ctor is None:
+        return []
+    key, msg = b"key-c11", b"message-c11"
+    want = hmac_expected(name, key, msg)
+    G._hash_info_cache.clear()
+    try:
+        steps = ("ctor", "name") if order == "ctor_first" else ("name", "ctor")
+        for st in steps:
+            try:
+                if st == "ctor":
+                    G.lookup_hash(ctor)
+                else:
+                    G.lookup_hash(name)
+            except (AssertionError, ValueError, TypeError):
+                pass  # refusing the application's constructor is fine; poisoning the name is not
+        got = G.compile_hmac(name, key)(msg)
+        if got != want:
+            out.append((f"C11|hmac|{name}:after_custom_constructor:{variant}:{order}",
+                        f"after lookup_hash(<{variant} {name} constructor>) ({order}), compile_hmac({name!r}, key)(msg) = {got.hex()}, RFC 2104 reference {want.hex()}"))
+        info = G.lookup_hash(name)
+        if info.digest_size != RK.digest_info(name)[1]:
+            out.append((f"C11|hmac|{name}:after_custom_constructor:{variant}:{order}:digest_size", f"lookup_hash({name!r}).digest_size = {info.digest_size}"))
+    except Exception as e:  # noqa: BLE001
+        out.append((f"C11|hmac|{name}:after_custom_constructor:{variant}:raises:{_exc(e)}", f"{variant} {order}: raised {e!r}"))
+    finally:
+        G._hash_info_cache.clear()
+    return out
+
+
 EVALS = {
+    "hmac_after_ctor": lambda c: eval_hmac_after_ctor(c["digest"], c["variant"], c["order"]),
     "des_int": lambda c: eval_des_int(c["part"], c["key"], c["block"], c["salt"], c["rounds"]),
     "des_block": lambda c: eval_des_block(c["part"], c["key"], c["block"], c["salt"], c["rounds"]),
     "des_key": lambda c: eval_des_key(c["op"], c["form"], c["value"]),
@@ -1172,6 +1218,9 @@ def w_hmac(acc, task, seed):
                 k = skey if mode == "strkey" else key
                 _do(acc, {"kind": "hmac", "digest": name, "key": k, "msg": msg, "mode": mode}, ("hmac", name, klen, mlen, mode))
         acc.axis("hmac_keylen_vs_block", _key_class(klen, block))
+    for variant in ("truncated", "personalised", "hashlib_new"):
+        for order in ("ctor_first", "name_first"):
+            _do(acc, {"kind": "hmac_after_ctor", "digest": name, "variant": variant, "order": order}, ("hmac", name, "after_ctor", variant, order))
     # text keys whose CHARACTER count and utf-8 BYTE count fall on different sides of the block size
     # (the key is 'encoded using utf-8' first, the block-size rule applies to the bytes)
     for ch, width in (("é", 2), ("€", 3), ("\U0001f600", 4)):
